@@ -12,6 +12,7 @@ mod egx;
 mod egs;
 mod eg9;
 mod eg20;
+mod egt;
 
 fn main() {
     common::install_panic_hook();
@@ -32,6 +33,7 @@ fn main() {
         "egs" => egs::main(&a),
         "eg9" => eg9::main(&a),
         "eg20" => eg20::main(&a),
+        "egt" => egt::main(&a),
         "features" => {
             println!("checks={} explanations={}", cfg!(feature = "checks"), cfg!(feature = "explanations"));
         }
